@@ -1,6 +1,10 @@
 """C09 - sorted-set kernels never touch memory outside their buffers (DESIGN.md section 3, C09)."""
+import os
+
+from .. import fuzzrun
 from .. import kernels as K
-from ..core import Sub
+from ..core import VERIF, Sub
+from .c08 import kernel_seeds
 
 PROPERTY = "C09"
 LEVEL = "exploration"
@@ -13,7 +17,9 @@ RULE = (
     "with the ASan runtime preloaded; any report aborts the child and is attributed through a case marker) "
     "with m=5 quick / m=8 thorough. Non-trivial = exactly one operand empty, or both non-empty with "
     "overlapping ranges and different maxima (one operand is exhausted strictly before the other, so the "
-    "tail handling runs). Enumerated cases are pairwise distinct by construction."
+    "tail handling runs). fuzz_asan: an Atheris / libFuzzer campaign on the coverage-instrumented ASan build "
+    "(bytes -> gap-encoded arrays, layouts, k-way lists; empty and seeded corpus; 4 000 executions per shard quick, "
+    "1.5 million thorough). Enumerated cases are pairwise distinct by construction."
 )
 ASSUMPTIONS = [
     "the bounds-checked build differs from the shipped kernel only in the boundscheck directive",
@@ -44,6 +50,13 @@ def enum_many(tier, shard, nshards):
             yield c
 
 
+def fuzz_runner(sub, tier, seed, shard, nshards, rec):
+    fuzzrun.run_campaign(sub, tier, seed, shard, nshards, rec,
+                         os.path.join(VERIF, "vfw", "fuzz", "kernels_fuzz.py"),
+                         {"quick": 4000, "thorough": 1500000}, asan=True, seed_corpus=kernel_seeds,
+                         asan_abort_is_violation=True, mode="c09")
+
+
 SUBS = [
     Sub("bounds_exh", check_obs_enum, enumerate=enum_bounds, exhaustive=True, variant="bounds",
         marker=True, weight=5),
@@ -55,6 +68,8 @@ SUBS = [
         weight=9, shards={"quick": 8, "thorough": 16}),
     Sub("asan_hyp", check_obs, strategy=lambda tier: K.pair_cases(200), variant="asan", marker=True,
         examples={"quick": 2000, "thorough": 100000}, shards={"quick": 4, "thorough": 16}, weight=8),
+    Sub("fuzz_asan", check_obs, runner=fuzz_runner, variant="plain", shards={"quick": 2, "thorough": 8},
+        rlimit_gb=0, weight=9),
     Sub("asan_many", check_obs_enum, enumerate=enum_many, exhaustive=True, variant="asan", marker=True,
         shards={"quick": 2, "thorough": 8}, weight=7),
 ]
